@@ -117,9 +117,12 @@ def check_detect(np, cnn, ridges, rot, ds=1, H=100, W=150):
     for x0, y0, L, sl, asc, desc in ridges:
         for k in range(L):
             x, y = x0 + k, int(round(y0 + sl * k))
-            rimg[y, x, 0] = 255
-            rimg[max(y - 1, 0):y + 2, x, 1] = int(asc * 10)
-            rimg[max(y - 1, 0):y + 2, x, 2] = int(desc * 10)
+            # the stub network subsamples the image by taking every ds-th pixel: a ridge pixel is drawn as the ds x ds block
+            # of its map cell, so that the ridge survives the subsampling as a connected one-pixel line of the map
+            yy, xx = (y // ds) * ds, (x // ds) * ds
+            rimg[yy:yy + ds, xx:xx + ds, 0] = 255
+            rimg[max(yy - ds, 0):yy + 2 * ds, xx:xx + ds, 1] = int(asc * 10)
+            rimg[max(yy - ds, 0):yy + 2 * ds, xx:xx + ds, 2] = int(desc * 10)
     image = np.rot90(rimg, k=-rot).copy()          # original image: analysing it with rot gives back rimg
     assert image.shape[:2] == (H, W)
     import io, contextlib
@@ -158,7 +161,10 @@ def check_detect(np, cnn, ridges, rot, ds=1, H=100, W=150):
         if not (tt[:, 0].min() - 1.5 <= min(ex0, ex1) + 3 and tt[:, 0].max() + 1.5 >= max(ex0, ex1) - 3 and tt[:, 1].min() - 1.5 <= min(ey0, ey1) + 3 and tt[:, 1].max() + 1.5 >= max(ey0, ey1) - 3):
             bad.append(('original-image-coordinates', 'rot %d: outline %r does not cover its baseline in original coordinates' % (rot, tt.round(0).tolist()[:4])))
     allp = np.concatenate([np.asarray(p, dtype=float) for p in p_list]) if p_list else np.zeros((0, 2))
-    if len(allp) and (allp[:, 0].min() < -8 or allp[:, 0].max() > W + 8 or allp[:, 1].min() < -8 or allp[:, 1].max() > H + 8):
+    # a line whose ascender / descender (map value x ds) is larger than its distance to the page edge legitimately reaches past the
+    # edge; the clause is about the rotation back to original coordinates, so the margin grows with the tallest line
+    mg = 8 + max(max(r[4], r[5]) for r in ridges) * ds
+    if len(allp) and (allp[:, 0].min() < -mg or allp[:, 0].max() > W + mg or allp[:, 1].min() < -mg or allp[:, 1].max() > H + mg):
         bad.append(('original-image-coordinates', 'rot %d: region polygons leave the original image: x %.0f..%.0f y %.0f..%.0f (image %dx%d)' % (rot, allp[:, 0].min(), allp[:, 0].max(), allp[:, 1].min(), allp[:, 1].max(), W, H)))
     return bad
 
